@@ -75,12 +75,56 @@ theorem toNat_addLoop (w : Nat) : ∀ (c : Nat) (a b : List Nat), a.length = b.l
   | c, [], _ :: _, h => by simp at h
   | c, _ :: _, [], h => by simp at h
 
+/-- one step of the `uint64_t` branch of integer's carry chain: with a carry-in of at most one and two limbs below `W = 2^w`,
+    the limb stored is the sum modulo `W` and the carry recovered from the two wrap-around tests is the true carry -/
+theorem wrap_carry {W c x y : Nat} (hW : 0 < W) (hc : c ≤ 1) (hx : x < W) (hy : y < W) :
+    ((c + x) % W + y) % W = (c + x + y) % W ∧
+    (if (c + x) % W < c then 1 else 0) + (if ((c + x) % W + y) % W < (c + x) % W then 1 else 0) = (c + x + y) / W ∧
+    (c + x + y) / W ≤ 1 := by
+  have hs : c + x + y < 2 * W := by omega
+  have hq : (c + x + y) / W ≤ 1 := by
+    have := (Nat.div_lt_iff_lt_mul hW).mpr hs
+    omega
+  refine ⟨by rw [Nat.mod_add_mod], ?_, hq⟩
+  by_cases h1 : c + x < W
+  · rw [Nat.mod_eq_of_lt h1]
+    have n1 : ¬ (c + x < c) := by omega
+    rw [if_neg n1]
+    by_cases h2 : c + x + y < W
+    · rw [Nat.mod_eq_of_lt h2, Nat.div_eq_of_lt h2]
+      have n2 : ¬ (c + x + y < c + x) := by omega
+      rw [if_neg n2]
+    · have e : (c + x + y) % W = c + x + y - W := by
+        rw [Nat.mod_eq_sub_mod (by omega), Nat.mod_eq_of_lt (by omega)]
+      have d : (c + x + y) / W = 1 := by
+        have : 1 ≤ (c + x + y) / W := (Nat.le_div_iff_mul_le hW).mpr (by omega)
+        omega
+      rw [e, d, if_pos (by omega)]
+  · -- c + x ≥ W forces c = 1, x = W − 1: the first addition wraps to 0
+    have e1 : (c + x) % W = 0 := by
+      have : c + x = W := by omega
+      rw [this, Nat.mod_self]
+    rw [e1, Nat.zero_add, Nat.mod_eq_of_lt hy, if_pos (by omega), if_neg (by omega)]
+    have : 1 ≤ (c + x + y) / W := (Nat.le_div_iff_mul_le hW).mpr (by omega)
+    omega
+
+/-- the `uint64_t` branch of the carry chain (wrap-around tests) computes the same limbs as the wide-accumulator branch -/
+theorem addLoop_u64_eq (w : Nat) : ∀ (c : Nat) (a b : List Nat), c ≤ 1 → Wf w a → Wf w b →
+    addLoop w true c a b = addLoop w false c a b
+  | c, [], _, _, _, _ => by simp [addLoop]
+  | c, _ :: _, [], _, _, _ => by simp [addLoop]
+  | c, x :: xs, y :: ys, hc, ha, hb => by
+    obtain ⟨e1, e2, e3⟩ := wrap_carry (Nat.two_pow_pos w) hc ha.head hb.head
+    simp only [addLoop, if_true, Bool.false_eq_true, if_false]
+    rw [e1] at e2 ⊢
+    rw [e2, addLoop_u64_eq w _ xs ys e3 ha.tail hb.tail]
+
 theorem addLoop_length (w : Nat) (d : Bool) : ∀ (c : Nat) (a b : List Nat), a.length = b.length →
     (addLoop w d c a b).length = a.length
   | c, [], [], _ => by simp [addLoop]
   | c, x :: xs, y :: ys, h => by
     have hl : xs.length = ys.length := by simpa using h
-    simp [addLoop, addLoop_length w d _ xs ys hl]
+    cases d <;> simp [addLoop, addLoop_length w _ _ xs ys hl]
   | c, [], _ :: _, h => by simp at h
   | c, _ :: _, [], h => by simp at h
 
@@ -88,8 +132,11 @@ theorem addLoop_wf (w : Nat) (d : Bool) : ∀ (c : Nat) (a b : List Nat), Wf w (
   | c, [], _ => by simp [addLoop]; exact Wf.nil w
   | c, _ :: _, [] => by simp [addLoop]; exact Wf.nil w
   | c, x :: xs, y :: ys => by
-    simp only [addLoop]
-    exact Wf.cons (Nat.mod_lt _ (Nat.two_pow_pos w)) (addLoop_wf w d _ xs ys)
+    cases d
+    · simp only [addLoop, Bool.false_eq_true, if_false]
+      exact Wf.cons (Nat.mod_lt _ (Nat.two_pow_pos w)) (addLoop_wf w false _ xs ys)
+    · simp only [addLoop, if_true]
+      exact Wf.cons (Nat.mod_lt _ (Nat.two_pow_pos w)) (addLoop_wf w true _ xs ys)
 
 
 /-! ### layout -/
